@@ -131,10 +131,12 @@ func rsGenAct(t *rapid.T, label string) RSAct {
 
 func genRS(t *rapid.T) RSCase {
 	c := RSCase{}
-	if rapid.IntRange(0, 9).Draw(t, "valshape") < 5 {
+	if shape := rapid.IntRange(0, 9).Draw(t, "valshape"); shape < 4 {
 		c.Powers = []int64{1, 1, 1, 1}
+	} else if shape == 4 {
+		c.Powers = []int64{1, 1, 1, 1, 1} // total power 2 mod 3: 2/3 of it is not a whole number
 	} else {
-		n := rapid.IntRange(1, 4).Draw(t, "nvals")
+		n := rapid.IntRange(1, 5).Draw(t, "nvals")
 		for i := 0; i < n; i++ {
 			c.Powers = append(c.Powers, int64(rapid.IntRange(1, 5).Draw(t, "power")))
 		}
@@ -165,11 +167,15 @@ func genRS(t *rapid.T) RSCase {
 		kinds[g] = rsGenKind(t, 72, "init-kind")
 		args[g] = rapid.IntRange(0, 7).Draw(t, "init-arg")
 	}
+	if rapid.IntRange(0, 99).Draw(t, "thin-commit") < 12 {
+		// a successor whose LastCommit was thinned out to just not more than 2/3 of the power
+		kinds[rapid.IntRange(2, c.N).Draw(t, "thin-at")] = "lastcommit-thin"
+	}
 	if rapid.IntRange(0, 99).Draw(t, "forged-pair") < 30 {
 		// a forged block together with a successor that names it and carries the attackers' precommits
 		g := rapid.IntRange(1, c.N-1).Draw(t, "forged-at")
 		kinds[g] = "txs"
-		kinds[g+1] = rapid.SampledFrom([]string{"on-forged", "on-forged-repeat", "on-forged-repeat", "on-genuine-repeat", "on-forged-prevotes", "on-forged-prevotes"}).Draw(t, "forged-next")
+		kinds[g+1] = rapid.SampledFrom([]string{"on-forged", "on-forged-repeat", "on-forged-repeat", "on-genuine-repeat", "on-forged-prevotes", "on-forged-prevotes", "on-forged-relabel", "on-forged-relabel"}).Draw(t, "forged-next")
 		if kinds[g+1] == "on-genuine-repeat" {
 			kinds[g] = "genuine"
 		}
